@@ -35,6 +35,9 @@ PATTERNS: Dict[str, Dict[str, Any]] = {
     "bmpx": {"literal": "^[b\\\\xe9]*$", "ranges": [[98, 98], [233, 233]]},  # the *regex* contains the escape \\xe9
     "astral": {"literal": "^[b\\U0001F600]*$", "ranges": [[98, 98], [0x1F600, 0x1F600]]},  # the regex contains U+1F600 itself
     # astral ranges whose UTF-16 form spans 1 / 2 / exactly 3 / 8 high surrogates
+    # a multi-statement pattern function: the building block `part` is re-assigned after it was used
+    "abc_re": {"literal": "^[abc]*$", "ranges": [[97, 99]],
+               "body": ['part = "[abc]"', 'body = f"{part}*"', 'part = "x"', 'pattern = f"^{body}$"', "return match(pattern, text) is not None"]},
     "ar1": {"literal": "^[b\\U00010000-\\U0001000F]*$", "ranges": [[98, 98], [0x10000, 0x1000F]]},
     "ar2": {"literal": "^[b\\U00010005-\\U00010405]*$", "ranges": [[98, 98], [0x10005, 0x10405]]},
     "ar3": {"literal": "^[b\\U00010000-\\U00010BFF]*$", "ranges": [[98, 98], [0x10000, 0x10BFF]]},
@@ -100,6 +103,8 @@ def atom_expr(a: Dict[str, Any], subject: str) -> str:
         return "%s is None or %s" % (subject, cmp)
     if g == "notnot":
         return "not (%s is not None) or %s" % (subject, cmp)
+    if g == "isnone3":
+        return "%s is None or len(%s) == 99 or %s" % (subject, subject, cmp)
     if g == "other":
         return "self.y is None or %s" % cmp
     if g == "othernot":
@@ -145,7 +150,10 @@ def scenario_mm(scn: Dict[str, Any]) -> Dict[str, Any]:
     pat_ids = sorted({i for a in atoms if a["k"] == "pat" for i in a["ids"]})
     set_ids = sorted({i for a in atoms if a["k"] == "set" for i in a["ids"]})
     for pid in pat_ids:
-        items.append({"kind": "raw", "text": '@verification\ndef is_%s(text: str) -> bool:\n    return match("%s", text) is not None\n' % (pid, PATTERNS[pid]["literal"])})
+        if "body" in PATTERNS[pid]:
+            items.append({"kind": "raw", "text": "@verification\ndef is_%s(text: str) -> bool:\n%s\n" % (pid, "\n".join("    " + l for l in PATTERNS[pid]["body"]))})
+        else:
+            items.append({"kind": "raw", "text": '@verification\ndef is_%s(text: str) -> bool:\n    return match("%s", text) is not None\n' % (pid, PATTERNS[pid]["literal"])})
     if scn["kind"] == "enum" or any(s in ENUM_SETS for s in set_ids):
         items.append({"kind": "enum", "name": "Color", "literals": ENUM_LITERALS})
     for sid in set_ids:
@@ -162,6 +170,9 @@ def scenario_mm(scn: Dict[str, Any]) -> Dict[str, Any]:
     items.extend(prim_items[j - 1] for j in porder)
     depth = len(scn["cls"])
     props = [{"name": "x", "type": x_type(scn)}]
+    if scn.get("twin"):
+        # another property of the same (constrained-primitive) type, declared before x
+        props.insert(0, {"name": "z", "type": x_type(scn).replace("Optional[", "").rstrip("]") if scn["opt"] else x_type(scn)})
     if needs_n(scn):
         props.append({"name": "n", "type": "int"})
     if needs_y(scn):
@@ -287,9 +298,23 @@ def make_x(scn: Dict[str, Any], n: int, item_len: int = 1, text: Optional[str] =
     raise ValueError(kind)
 
 
+def twin_value(scn: Dict[str, Any]) -> Any:
+    """A filler for z (same constrained-primitive type as x): 'b' * n with the smallest n all primitive length atoms admit."""
+    import operator
+
+    ops = {"<": operator.lt, "<=": operator.le, "==": operator.eq, ">": operator.gt, ">=": operator.ge, "!=": operator.ne}
+    atoms = [a for lvl in scn["prim"] for a in lvl if a["k"] == "len" and a["form"] == "const"]
+    for n in range(0, 9):
+        if all(ops[a["op"]](n, a["c"]) if a["side"] == "L" else ops[a["op"]](a["c"], n) for a in atoms):
+            return ["b" * n] if scn["kind"] == "listcprim" else "b" * n
+    raise ValueError("no filler value for z")
+
+
 def make_instance(scn: Dict[str, Any], types: Any, k: int, x: Any, y_none: bool = True) -> Any:
     """Something(inner=Ck(x=..., [n=N_VALUE], [y=...]))."""
     kwargs: Dict[str, Any] = {"x": x}
+    if scn.get("twin"):
+        kwargs["z"] = twin_value(scn)
     if needs_n(scn):
         kwargs["n"] = N_VALUE
     if needs_y(scn):
